@@ -66,10 +66,10 @@ impl Prop for C04 {
     let pv = prov(spec);
     assert_eq!(pv.len(), text.len());
     let (pos, _) = positions(&text);
-    let map = guard(|| build(spec).map(&opts(true, false))).map_err(|p| format!("map(): {p}"))?;
+    let check_map = |map: &Option<rspack_sources::SourceMap>| -> Result<(), String> {
     let at = attr_from_map(map.as_ref(), &text, true)?;
     let ms = map.as_ref().map(|m| m.mappings().to_string());
-    if let Some(mp) = &map {
+    if let Some(mp) = map {
       let d = decode_map(mp)?;
       // (a) every mapped segment that starts on an Orig byte names exactly that byte
       for s in &d.segs {
@@ -111,7 +111,6 @@ impl Prop for C04 {
         }
       }
     }
-    let mut nt = false;
     for i in 0..text.len() {
       match (&pv[i], &at[i]) {
         (Prov::Raw, Some(a)) => {
@@ -143,6 +142,20 @@ impl Prop for C04 {
         _ => {}
       }
     }
+    Ok(())
+    };
+    let map = guard(|| build(spec).map(&opts(true, false))).map_err(|p| format!("map(): {p}"))?;
+    check_map(&map)?;
+    // the same statements hold for whatever path produced the map: one object asked twice (the second
+    // answer is assembled from the caches of its CachedSources)
+    if spec.has_cached() {
+      let obj = build(spec);
+      for round in ["first", "second"] {
+        let m = guard(|| obj.map(&opts(true, false))).map_err(|p| format!("map() ({round} call on one object): {p}"))?;
+        check_map(&m).map_err(|e| format!("{round} map() on one object: {e}"))?;
+      }
+    }
+    let mut nt = false;
     // non-trivial: a surviving Orig byte after a Repl byte, or sharing a line with a byte of another file / raw
     {
       let mut seen_repl = false;
